@@ -196,6 +196,7 @@ theorem ctor_agree (c : MetaCase) (hwf : metaWf c = true) (hk : metaKnown c = []
     rw [this]
   have hknown : C01.known c.on = [] ∧ C01.known c.off = [] := by
     unfold metaKnown at hk
+    have hk := (List.append_eq_nil_iff.1 hk).1
     have hor : (c.off.eff.attrs.any (C01.misplaced c.off.eff) || c.on.eff.attrs.any (C01.misplaced c.on.eff)) = false := by
       cases h : (c.off.eff.attrs.any (C01.misplaced c.off.eff) || c.on.eff.attrs.any (C01.misplaced c.on.eff)) with
       | false => rfl
@@ -237,10 +238,54 @@ theorem ctor_agree (c : MetaCase) (hwf : metaWf c = true) (hk : metaKnown c = []
       ← annotationsOf_unslot c.on.eff.attrs, ← annotationsOf_unslot c.off.eff.attrs,
       ← unset_unslot c.on.eff.attrs, ← unset_unslot c.off.eff.attrs, hs.attrs]
 
+/-! ### the `__setattr__` reset of the two builds -/
+
+theorem any_unslot (p : Attr → Bool) (hp : ∀ a, p (unslot a) = p a) (l : List Attr) :
+    (l.map unslot).any p = l.any p := by
+  induction l with
+  | nil => rfl
+  | cons a l ih => simp only [List.map_cons, List.any_cons, hp a, ih]
+
+theorem clsHookOf_unslot (d f : Bool) (k : ClsOnSet) (attrs : List Attr) :
+    clsHookOf d f k (attrs.map unslot) = clsHookOf d f k attrs := by
+  unfold clsHookOf
+  rw [any_unslot _ (fun _ => rfl), any_unslot _ (fun _ => rfl)]
+
+theorem inSaAttrs_congr (c1 c2 : Cfg) (h : c1.clsHook = c2.clsHook) (a : Attr) : inSaAttrs c1 a = inSaAttrs c2 a := by
+  unfold inSaAttrs
+  rw [h]
+
+/-- whether the builder writes its own `__setattr__` does not depend on `slots` -/
+theorem wrote_same (c : MetaCase) (h : sameSpec c = true) : wroteSetattr c.on = wroteSetattr c.off := by
+  have hs := (same_of c h).1
+  unfold sameSpec at h
+  simp only [Bool.and_eq_true, beq_iff_eq, Bool.not_eq_true'] at h
+  obtain ⟨⟨⟨⟨⟨⟨⟨⟨⟨⟨⟨⟨⟨⟨_, _⟩, hfr⟩, _⟩, _⟩, _⟩, _⟩, _⟩, _⟩, hat⟩, _⟩, _⟩, _⟩, hdef⟩, hcls⟩ := h
+  have hhook : c.on.eff.cfg.clsHook = c.off.eff.cfg.clsHook := by
+    show clsHookOf c.on.isDefine c.on.run.cfg.frozen c.on.clsOnSet c.on.run.attrs =
+      clsHookOf c.off.isDefine c.off.run.cfg.frozen c.off.clsOnSet c.off.run.attrs
+    rw [← clsHookOf_unslot _ _ _ c.on.run.attrs, ← clsHookOf_unslot _ _ _ c.off.run.attrs, hat, hdef, hfr, hcls]
+  unfold wroteSetattr
+  have hfr' : c.on.eff.cfg.frozen = c.off.eff.cfg.frozen := hfr
+  rw [hfr', ← any_unslot (inSaAttrs c.on.eff.cfg) (fun _ => rfl) c.on.eff.attrs,
+    ← any_unslot (inSaAttrs c.off.eff.cfg) (fun _ => rfl) c.off.eff.attrs]
+  have : c.on.eff.attrs.map unslot = c.off.eff.attrs.map unslot := hs.attrs
+  rw [this]
+  have hf : inSaAttrs c.on.eff.cfg = inSaAttrs c.off.eff.cfg := funext (inSaAttrs_congr _ _ hhook)
+  rw [hf]
+
+theorem reset_agree_of_known (c : MetaCase) (hk : metaKnown c = []) : metaSlotsReset c = metaDictReset c := by
+  unfold metaKnown at hk
+  have h2 := (List.append_eq_nil_iff.1 hk).2
+  unfold metaResetDiffers at h2
+  cases h : (metaSlotsReset c != metaDictReset c) with
+  | true => rw [h] at h2; simp at h2
+  | false => simpa using h
+
 theorem meta_meets_spec (c : MetaCase) (hwf : metaWf c = true) (hk : metaKnown c = []) :
     metaSpec c (metaModel c) = true := by
   unfold metaSpec metaModel
-  rw [ctor_agree c hwf hk]
+  rw [ctor_agree c hwf hk, reset_agree_of_known c hk]
   simp
 
 end Attrs.C08
